@@ -5,7 +5,7 @@ Import ListNotations.
 
 Definition ex_params (fixed : bool) : params :=
   mkParams 2 2 (fun x => match x with 0 => Direct | 1 => Pipe 0 | 2 => Pipe 1 | _ => Direct end)
-           (fun _ => None) fixed (fun _ => false).
+           (fun _ => None) fixed (fun _ => false) true.
 
 (* call 0 is acknowledged and pending; call 1 is pipelined on its answer, call 2 on the answer of
    call 1; then call 0 returns and its queue is drained *)
@@ -24,7 +24,7 @@ Proof. vm_compute. reflexivity. Qed.
 
 (* the cap is reached: two implementations run at once with MaxConcurrentCalls = 2, and a third
    call waits for a slot *)
-Definition ex_params2 : params := mkParams 2 1 (fun _ => Direct) (fun _ => None) true (fun _ => false).
+Definition ex_params2 : params := mkParams 2 1 (fun _ => Direct) (fun _ => None) true (fun _ => false) true.
 Definition ex_sched2 : list tid := [TStart 0; TAck 0; TStart 0; TStart 1; TAck 1; TStart 1; TStart 2].
 Example cap_reached :
   let c := run ex_params2 (init ex_params2) ex_sched2 in
@@ -48,7 +48,7 @@ Proof. vm_compute. auto. Qed.
    (SWaitFull); its next step is not enabled, and the only thread that could free a slot is
    TImpl 0 - the goroutine that, in the implementation, is the one blocked in the nested start. *)
 Definition ex_params_self : params :=
-  mkParams 1 1 (fun x => match x with 1 => Pipe 0 | _ => Direct end) (fun _ => None) true (fun _ => false).
+  mkParams 1 1 (fun x => match x with 1 => Pipe 0 | _ => Direct end) (fun _ => None) true (fun _ => false) true.
 Definition ex_sched_self : list tid :=
   [TStart 0; TAck 0; TStart 0; TPipe 1; TRet 0 false; TImpl 0; TStart 2].
 Example self_pipe_blocked :
@@ -63,7 +63,7 @@ Proof. vm_compute. repeat split. Qed.
    passed through: delivery order 1, 2, 3 *)
 Definition ex_params_mid : params :=
   mkParams 1 2 (fun x => match x with 0 => Direct | _ => Pipe 0 end) (fun _ => None) true
-           (fun x => Nat.eqb x 1).
+           (fun x => Nat.eqb x 1) true.
 Definition ex_sched_mid : list tid :=
   [TStart 0; TAck 0; TStart 0; TPipe 1; TPipe 2; TRet 0 false; TImpl 0; TImpl 0; TPipe 3; TPipe 3; TImpl 0].
 Example mid_drain_blocked :
@@ -83,7 +83,7 @@ Proof. vm_compute. reflexivity. Qed.
    any queued call has been rejected; in the end every call has completed with the error of 0 *)
 Definition ex_params_full : params :=
   mkParams 1 1 (fun x => match x with 0 => Direct | 2 => Pipe 1 | _ => Pipe 0 end) (fun _ => None) true
-           (fun _ => false).
+           (fun _ => false) true.
 Definition ex_sched_full : list tid :=
   [TStart 0; TAck 0; TStart 0; TPipe 1; TPipe 2; TPipe 3; TRet 0 true; TImpl 0].
 Example full_queue_reject_releases :
